@@ -9,6 +9,10 @@ def cigarLetters : List Nat := [77, 73, 68, 78, 83, 72, 80, 61, 88]
 def seqLetters : List Nat := [61, 65, 67, 77, 71, 82, 83, 86, 84, 87, 89, 72, 75, 68, 66, 78]
 /-- does a single op of this code advance the reference? (codes 0..8) -/
 def consumes : List Bool := [true, false, true, true, false, false, false, true, true]
+/-- the op codes that advance the reference (positions of `true` above): what `count_reference_length` compares with -/
+def consumingCodes : List Nat := [0, 2, 3, 7, 8]
+/-- last 28 bytes of a file written by `bnp.open(f, 'w')` -/
+def eofMarker : List Nat := [31, 139, 8, 4, 0, 0, 0, 0, 0, 255, 6, 0, 66, 67, 2, 0, 27, 0, 3, 0, 0, 0, 0, 0, 0, 0, 0, 0]
 /-- does refID = -1 select the LAST reference name (shipped rule)? -/
 def oldChrom : Bool := false
 /-- does `n_cigar_op * 4` wrap at 2^16 (shipped rule)? -/
